@@ -20,8 +20,16 @@ func Exec(cursor store.Cursor, expr *grammar.Grammar, settings ...ContextApply) 
 		i(&contextSettings)
 	}
 
+	// An absolute path starts from the root node of the document that
+	// contains the starting node, not from the starting node itself.
+	top := cursor
+
+	for top.Pos() != 0 {
+		top = top.Parent()
+	}
+
 	context := &exprContext{
-		root:             cursor,
+		root:             top,
 		result:           Result(NodeSet{cursor}),
 		contextPosition:  0,
 		contextSize:      1,
